@@ -295,3 +295,23 @@ rf("rf-keepalive-calllater-chain", [
     (B, "log = Logger(namespace='mqtt')\n\n\n# ---------------------------------------\n# Base State Class",
         "log = Logger(namespace='mqtt')\n\n\nclass _Ticker(object):\n    '''Calls protocol.ping() now and then every period seconds (drift-free)'''\n    def __init__(self, protocol, period):\n        self.protocol, self.period, self.call, self.n = protocol, period, None, 0\n    def start(self):\n        self.t0 = reactor.seconds()\n        self._tick()\n    def _tick(self):\n        self.n += 1\n        self.call = self.protocol.callLater(max(0, self.t0 + self.n*self.period - reactor.seconds()), self._tick)\n        self.protocol.ping()\n    def stop(self):\n        if self.call is not None and self.call.active():\n            self.call.cancel()\n        self.call = None\n\n\n# ---------------------------------------\n# Base State Class"),
 ])
+
+
+# ---- third batch: subtler faults for the properties with few surviving-the-suite mutants
+m("c03-stale-length-when-more-buffered", "C03", B, "                self._buffer = self._buffer[length + lenLen + 1:]\n                length = None\n",
+  "                self._buffer = self._buffer[length + lenLen + 1:]\n                if len(self._buffer) < 2 or self._buffer[0] >> 4 != 3: length = None\n")
+m("c03-large-chunk-replaces-partial", "C03", B, "        self._buffer.extend(data)\n\n        length = None\n", "        if len(data) >= 16384:\n            self._buffer = bytearray(data)\n        else:\n            self._buffer.extend(data)\n\n        length = None\n")
+m("c05-success-on-pubrec-after-retries", "C05 C09", P, "            reply.retries  = request.retries        # and the retry count\n", "            reply.retries  = request.retries        # and the retry count\n            if reply.retries >= 2 and not reply.deferred.called: reply.deferred.callback(reply.msgId)\n")
+m("c09-pubcomp-accepted-before-pubrec", "C09 C05", P, "            reply = self.factory.windowPubRelease[self.addr][response.msgId]\n        except KeyError as e:\n",
+  "            if response.msgId not in self.factory.windowPubRelease[self.addr] and getattr(self.factory.windowPublish[self.addr].get(response.msgId), 'qos', 0) == 2:\n                early = self.factory.windowPublish[self.addr].pop(response.msgId)\n                self.factory.windowPubRelease[self.addr][response.msgId] = early\n            reply = self.factory.windowPubRelease[self.addr][response.msgId]\n        except KeyError as e:\n")
+m("c10-refill-stops-after-qos0", "C10", P, "            self._retryPublish(request, dup)\n\n\n    def _retryPublish", "            self._retryPublish(request, dup)\n            if not request.msgId:\n                break\n\n\n    def _retryPublish")
+m("c10-shrinking-window-drops-queue-tail", "C10 C05", P, "    def setBandwith(self, bandwith, factor=2):\n", "    def setWindowSize(self, n):\n        MQTTBaseProtocol.setWindowSize(self, n)\n        queue = self.factory.queuePublishTx.get(self.addr)\n        while queue is not None and len(queue) > 4 * n:\n            queue.pop()\n\n    def setBandwith(self, bandwith, factor=2):\n")
+m("c11-purge-spares-requests-with-retries", "C11", P, "            del self.factory.windowPublish[self.addr][k]\n            if request.alarm is not None:   # sent again on this connection before the purge\n",
+  "            if not inherited and request.retries >= 2:\n                continue\n            del self.factory.windowPublish[self.addr][k]\n            if request.alarm is not None:   # sent again on this connection before the purge\n")
+m("c12-resume-skips-requests-with-retries", "C12", P, "            if request.alarm is None:   # not what was already sent while waiting for CONNACK\n                self._retryPublish(request, dup=True)\n",
+  "            if request.alarm is None and request.retries < 3:   # not what was already sent while waiting for CONNACK\n                self._retryPublish(request, dup=True)\n")
+m("c06-qos2-redelivered-after-reconnect", "C06", P, "            del self.factory.windowPubRx[self.addr][response.msgId]\n", "            if msg.dup is False or msg.retain is False:\n                del self.factory.windowPubRx[self.addr][response.msgId]\n")
+m("c07-suback-value-truncated-to-request", "C07", P, "            request.deferred.callback(response.granted)\n", "            request.deferred.callback(response.granted[:len(request.topics)])\n")
+m("c15-abort-skipped-when-window-busy", "C15", B, "            self._pingReq.alarm = None    # it has just fired: nothing left to cancel\n            self.transport.abortConnection()\n",
+  "            self._pingReq.alarm = None    # it has just fired: nothing left to cancel\n            if getattr(self, '_window', 1) < 8:\n                self.transport.abortConnection()\n")
+m("c16-suback-id-out-of-window-raises", "C16", P, "            request.deferred.callback(response.granted)\n", "            request.deferred.callback(response.granted if response.granted else response.granted[0])\n")
